@@ -27,6 +27,10 @@ type env struct {
 	idx  map[string]int
 	dead map[string]bool // host:port of the refusing addresses
 
+	// reload histories (env of key {-1,-1,-1} only): the dynamic cluster is re-created under a new name for every case
+	main  []e2e.SubCluster
+	nDyn  int
+
 	mu    sync.Mutex
 	steps []int // outcome script of the current case, consumed by attempts that reach a live backend
 	ok200 []byte
@@ -98,10 +102,13 @@ func (j *injector) RoundTrip(req *bfe_http.Request) (*bfe_http.Response, error) 
 	return nil, inj
 }
 
-var envs = map[[3]int]*env{}
+var envs = map[[4]int]*env{}
 
-func getEnv(rm, cr, level int) *env {
-	k := [3]int{rm, cr, level}
+func getEnv(rm, cr, level int) *env { return getEnvK(0, rm, cr, level) }
+
+// tag 1 = the server used for reload histories (its configuration is rewritten by every such case)
+func getEnvK(tag, rm, cr, level int) *env {
+	k := [4]int{tag, rm, cr, level}
 	if e, ok := envs[k]; ok {
 		return e
 	}
@@ -143,19 +150,45 @@ func getEnv(rm, cr, level int) *env {
 	for i := 0; i < 7; i++ {
 		e.idx[name(i)] = i
 	}
+	e.main = []e2e.SubCluster{
+		{Name: "s1", Weight: 100, Backends: []*e2e.Backend{a0, a1}},
+		{Name: "s2", Weight: 0, Backends: []*e2e.Backend{c0, c1}},
+		{Name: "s3", Weight: 0, Backends: []*e2e.Backend{e0}},
+		{Name: "GSLB_BLACKHOLE", Weight: 0}}
 	envs[k] = e
 	return e
+}
+
+// reloadTo puts a dynamic cluster with the given retry settings into service through the reload path and routes
+// d.example.org to it; the fault-injecting transport is installed on it afterwards (a reload re-creates transports).
+func (e *env) reloadTo(name string, rm, cr, level int) bool {
+	products := []e2e.Product{{Name: "p", Hosts: []string{"example.org"}, Cluster: "c"},
+		{Name: "pd", Hosts: []string{"d.example.org"}, Cluster: name}}
+	clusters := []e2e.Cluster{
+		{Name: "c", RetryMax: 2, CrossRetry: 1, RetryLevel: 1, TimeoutResponseHeader: 300, SubClusters: e.main},
+		{Name: name, RetryMax: rm, CrossRetry: cr, RetryLevel: level, TimeoutResponseHeader: 300, SubClusters: e.main}}
+	if err := e.srv.Reload(products, "", clusters); err != nil {
+		return false
+	}
+	return e.srv.Bfe.VerifC08WrapTransport(name, func(rt bfe_http.RoundTripper) bfe_http.RoundTripper { return &injector{rt, e} })
 }
 
 var methods = []string{"GET", "POST", "HEAD", "PUT"}
 
 func impl(in hv.Val) hv.Val {
 	l := hv.AsList(in)
-	if len(l) != 6 && len(l) != 7 {
+	if len(l) < 6 || len(l) > 8 {
 		return hv.Err(0)
 	}
+	hist := 0
+	if len(l) == 8 {
+		hist = int(hv.AsInt(l[7]))
+		if hist < 0 || hist > 3 || hv.AsInt(l[6]) != 0 {
+			return hv.Err(0)
+		}
+	}
 	topo := 0
-	if len(l) == 7 {
+	if len(l) >= 7 {
 		topo = int(hv.AsInt(l[6]))
 		if topo < 0 || topo > 2 {
 			return hv.Err(0)
@@ -169,6 +202,25 @@ func impl(in hv.Val) hv.Val {
 		return hv.Err(0)
 	}
 	e := getEnv(rm, cr, level)
+	if hist > 0 {
+		// the server of this env started with RetryMax 2 / CrossRetry 1 / RetryGet; the cluster under test arrives by reload
+		e = getEnvK(1, 2, 1, 1)
+		e.nDyn++
+		name := fmt.Sprintf("d%d", e.nDyn)
+		ok := true
+		switch hist {
+		case 1:
+			ok = e.reloadTo(name, rm, cr, level)
+		case 2:
+			ok = e.reloadTo(name, (rm+2)%6, (cr+1)%4, 1-level) && e.reloadTo(name, rm, cr, level)
+		case 3:
+			ok = e.reloadTo(name, rm, cr, level) && e.reloadTo(name, rm, cr, level)
+		}
+		if !ok {
+			return hv.Err(3)
+		}
+		host = "d.example.org"
+	}
 	e.plan.Reset()
 	for _, b := range e.live {
 		b.Reset()
@@ -328,6 +380,10 @@ func gen(r *hv.Rng, i int, tier string) (string, hv.Val) {
 		}
 		st = append(st, hv.I(0))
 		return "cap20", hv.L{hv.I(25), hv.I(r.Intn(3)), hv.I(1), hv.I(0), hv.I(r.Intn(2)), st}
+	}
+	if r.Chance(1, 10) { // the cluster gets its retry settings through the reload path
+		h := []int{1, 1, 2, 3}[r.Intn(4)]
+		return fmt.Sprintf("reload%d-%s", h, class), hv.L{hv.I(rm), hv.I(cr), hv.I(level), hv.I(method), hv.I(body), steps, hv.I(0), hv.I(h)}
 	}
 	if r.Chance(1, 8) {
 		topo := 1 + r.Intn(2)
